@@ -433,7 +433,13 @@ void execute_decode(const Plan& plan) {
           }
           case kLocalTable: { Label l = a.new_label(); labels.push_back(l); embed_site(l); break; }
           case kRipData: { if (target != 0) break; Label l = a.new_label(); labels.push_back(l); mem_site(l, (op.a[1] & 0x100) ? -int64_t(op.a[1] & 0xff) : int64_t(op.a[1] & 0xff)); break; }
-          default: nops(size_t(op.a[0] % 17)); break;
+          default: {
+            nops(size_t(op.a[0] % 17));
+            // a jump that only has the rel8 form, onto a label that is bound later - possibly in the other section, where
+            // only resolve_cross_section_fixups() learns the distance
+            if ((op.a[1] % 5) == 0) { Label l = a.new_label(); labels.push_back(l); size_t at = a.offset(); xa.short_(); if (xa.jmp(l) == Error::kOk) sites.push_back(Site{7, a.current_section()->section_id(), at, a.offset(), 0, l, false}); sim::count("c04.probe.decode_rel8_forward_reference"); if (op.a[1] % 2) nops(size_t(op.a[0] % 260)); /* sometimes out of reach */ }
+            break;
+          }
         }
       }
       else {
@@ -508,7 +514,7 @@ void execute_decode(const Plan& plan) {
           SIM_CHECK(designated == (s.target & mask), "c04:wrong-target", "call/jmp at offset %zu..%zu relocated to base %#llx (base %s at assembly time) designates %#llx%s, requested %#llx", s.start, s.end, (unsigned long long)base,
                     known ? "known" : "unknown", (unsigned long long)designated, via_table ? " (address table)" : "", (unsigned long long)(s.target & mask));
         }
-        else if (s.kind >= 3) {
+        else if (s.kind >= 3 && s.kind <= 6) {
           // AArch64 b / bl (imm26 * 4) and adr (immhi:immlo), relative to the address of the instruction itself
           uint32_t word; memcpy(&word, img.data() + sec_off + s.start, 4);
           int64_t rel;
@@ -519,6 +525,13 @@ void execute_decode(const Plan& plan) {
           SIM_CHECK(designated == s.target, "c04:wrong-target", "a64 %s at offset %zu relocated to base %#llx (base %s at assembly time) designates %#llx, requested %#llx", s.kind == 3 ? "b" : s.kind == 4 ? "bl" : s.kind == 5 ? "adr" : "adrp", s.start,
                     (unsigned long long)base, known ? "known" : "unknown", (unsigned long long)designated, (unsigned long long)s.target);
           sim::count("c04.probe.decode_a64_branch");
+        }
+        else if (s.kind == 7) {
+          // rel8 jump: the byte behind the opcode, relative to the end of the instruction
+          uint64_t want = base + code.label_offset_from_base(s.label);
+          int64_t dist = int64_t(want) - int64_t(base + sec_off + s.end);
+          SIM_CHECK(dist >= -128 && dist <= 127, "c04:unreachable-target-accepted", "a rel8-only jump at offset %zu onto a label %lld bytes away was resolved and relocated without an error", s.start, (long long)dist);
+          SIM_CHECK(img[sec_off + s.start] == 0xEB && int64_t(int8_t(img[sec_off + s.end - 1])) == dist, "c04:wrong-target", "short jmp at offset %zu designates %+d, the label is %+lld bytes behind it", s.start, int(int8_t(img[sec_off + s.end - 1])), (long long)dist);
         }
         else if (s.kind == 1) {
           size_t fs = s.end - s.start;
@@ -541,6 +554,9 @@ void execute_decode(const Plan& plan) {
       // A relocation error needs a reason: a conditional jump (which cannot be routed through the address table) whose
       // target is out of reach from this base.
       bool legit = false;
+      // a rel8-only jump whose label ended up out of reach (resolve_cross_section_fixups() reports it; within one section it is
+      // bind() that does)
+      for (auto& s : sites) if (s.kind == 7 && code.is_label_bound(s.label)) { int64_t dist = int64_t(code.label_offset_from_base(s.label)) - int64_t(code.section_by_id(s.section_id)->offset() + s.end); if (dist < -128 || dist > 127) { legit = true; sim::count("c04.probe.decode_rel8_out_of_reach_reported"); } }
       if (unreachable_jcc_possible) for (auto& s : sites) if (s.kind == 0 && s.jcc && !reachable_rel32(base + s.end, s.target)) legit = true;
       // ... or a 4-byte embedded address on a 64-bit target whose label ends up at or above 4 GiB
       if (target != 0) for (auto& s : sites) if (s.kind == 1 && s.end - s.start == 4 && ((base + code.label_offset_from_base(s.label)) > 0xffffffffull || base + code.label_offset_from_base(s.label) < base)) { legit = true; sim::count("c04.probe.decode_abs32_field_unreachable_reported"); }
